@@ -94,6 +94,9 @@ fn build_calls(case: &DiCase, allow_big: bool) -> (Cfg, Vec<Call>) {
         11 if allow_big => return build_wide(case),
         _ => {}
     }
+    if case.variant % 16 == 13 {
+        return build_fan(case);
+    }
     let n = gen::pick_n(case.n_sel);
     let cap = gen::pick_cap(case.cap_sel).max(case.verts.len() + 2);
     let cfg = Cfg { n, cap };
@@ -226,6 +229,33 @@ fn build_wide(case: &DiCase) -> (Cfg, Vec<Call>) {
     for (i, (_, d)) in case.verts.iter().enumerate().take(total) {
         if d % 2 == 0 {
             push_valid(&mut r, &mut calls, Call::Put(i, data_bytes(u16::from(*d) << 8, i as u16)));
+        }
+    }
+    (cfg, calls)
+}
+
+/// A hub with N or N-1 labels (parallel labels to 2..=5 kids), for every N incl. 17 and 32,
+/// plus generated extra edges; at most 8 vertices.
+fn build_fan(case: &DiCase) -> (Cfg, Vec<Call>) {
+    let n = [1usize, 2, 3, 8, 15, 16, 17, 32][case.n_sel as usize % 8];
+    let kids = 2 + (case.pred as usize % 4);
+    let cfg = Cfg { n, cap: gen::pick_cap(case.cap_sel).max(kids + 3) };
+    let mut r = Runner::new(cfg);
+    let mut calls = vec![];
+    let pool = pool();
+    for i in 0..=kids + 1 {
+        push_valid(&mut r, &mut calls, Call::Add(i));
+    }
+    let want = if case.rate & 1 == 0 { n } else { n.saturating_sub(1).max(1) };
+    for k in 0..want {
+        let l = if k < pool.len() { pool[k].clone() } else { Lab::Alpha(1000 + k as u64) };
+        push_valid(&mut r, &mut calls, Call::Bind { a: 0, b: 1 + (k + case.pred as usize) % kids, l, parsed: false });
+    }
+    for (f, t, l) in case.edges.iter().take(10) {
+        let a = 1 + (*f as usize % (kids + 1));
+        let b = (*t as usize) % (kids + 2);
+        if a != b {
+            push_valid(&mut r, &mut calls, Call::Bind { a, b, l: Lab::Alpha(u64::from(*l) % (n as u64).max(1)), parsed: false });
         }
     }
     (cfg, calls)
